@@ -277,6 +277,31 @@ impl AcquisitionLedger {
         }
     }
 
+    /// Re-express every lot in the units that apply after a split (`unsplit == false`:
+    /// quantities x ratio, unit price / ratio) or an unsplit (`unsplit == true`: the inverse).
+    ///
+    /// Costs and cost offsets are unchanged: a split only rescales share counts.
+    pub fn rescale_quantities(&mut self, ratio: Decimal, unsplit: bool) {
+        if ratio == Decimal::ZERO {
+            return;
+        }
+        for lot in &mut self.lots {
+            if unsplit {
+                lot.original_amount /= ratio;
+                lot.consumed /= ratio;
+                lot.reserved /= ratio;
+                lot.in_pool /= ratio;
+                lot.price *= ratio;
+            } else {
+                lot.original_amount *= ratio;
+                lot.consumed *= ratio;
+                lot.reserved *= ratio;
+                lot.in_pool *= ratio;
+                lot.price /= ratio;
+            }
+        }
+    }
+
     /// Get all lots.
     pub fn lots(&self) -> &[AcquisitionLot] {
         &self.lots
